@@ -1,1 +1,3 @@
-fn main() { vcore::main_entry(true) }
+fn main() {
+    vcore::main_entry(true)
+}
